@@ -7,6 +7,7 @@ import (
 	"path/filepath"
 	"strings"
 	"sync"
+	"sync/atomic"
 	"testing"
 	"time"
 
@@ -29,6 +30,9 @@ var (
 func installYieldHook() {
 	hookOnce.Do(func() {
 		dnsserver.VerifYield = func(p string) {
+			if p == "query.reader-acquired" {
+				atomic.AddInt64(&stressAcquired, 1)
+			}
 			schedMu.Lock()
 			s := curSched
 			schedMu.Unlock()
@@ -645,6 +649,20 @@ func TestC05(t *testing.T) {
 			kit.Eval()
 		}
 	}
+	// part (ii): free-running stress with generation invariants (a short slice
+	// in quick, longer in thorough); configurations drawn by rapid
+	kit.SetRapid(kit.N(16, 320))
+	rapid.Check(t, kit.Prop("C05", func(t *rapid.T) {
+		cfg := genStressCfg(t, true, kit.Pick(1500, 6000))
+		kit.Case(cfg)
+		res := stressRun(t, "C05", cfg)
+		kit.ClassN("stress-queries", res.Queries)
+		kit.ClassN("stress-reloads", res.Reloads)
+		kit.ClassN("stress-queries-overlapping-a-reload", res.Overlapped)
+		if res.Overlapped > 0 {
+			kit.NonTrivial(fmt.Sprintf("stress|%s|%d|%v", cfg.Backend, cfg.Workers, cfg.Reloads))
+		}
+	}))
 	kit.SetRapid(kit.N(kit.Pick(1600, 100000)*scalePct()/100, 1))
 	rapid.Check(t, kit.Prop("C05", func(t *rapid.T) {
 		b := rapid.SampledFrom(kit.AllBackends).Draw(t, "backend")
